@@ -288,9 +288,20 @@ const STR_LITS: [&str; 10] = ["s", "s", "s", "sa", "sx", "s_", "sa_b", "s_a", "s
 /// consistent-Horn KB: one value per field (`vals`), conditions are And-trees of equality atoms;
 /// `strs`: half of the fields hold a string of STR_LITS (dead-end literal: another string, often the empty one)
 fn gen_horn(rng: &mut Rng, strs: bool) -> String {
+    gen_horn_with(rng, strs, false)
+}
+
+/// `names`: the strings are NAMES of (flat) fields of the same KB instead (`sA` = "A" while a fact `A` exists or is derived)
+fn gen_horn_with(rng: &mut Rng, strs: bool, names: bool) -> String {
     let nf = rng.range(3, NF);
     let vals: Vec<String> = (0..nf)
-        .map(|_| if strs && rng.chance(1, 2) { rng.pick(&STR_LITS).to_string() } else { rand_val(rng, true) })
+        .map(|_| {
+            if strs && rng.chance(1, 2) {
+                if names { format!("s{}", FIELDS[rng.below(nf.min(NFLAT)) as usize]) } else { rng.pick(&STR_LITS).to_string() }
+            } else {
+                rand_val(rng, true)
+            }
+        })
         .collect();
     let atom = |f: u64, rng: &mut Rng, vals: &Vec<String>| {
         // mostly the consistent value; sometimes a value that can never hold (dead end)
@@ -460,6 +471,130 @@ fn gen_strlit(rng: &mut Rng) -> String {
         // consistent-Horn KB, string-heavy
         _ => gen_horn(rng, true),
     }
+}
+
+/// fields 0..NFLAT have flat (un-dotted, alphanumeric) names: `s<FIELDS[k]>` is a string literal that coincides with a fact name
+const NFLAT: u64 = 8;
+
+/// name-literal family: the string a rule ASSIGNS (and goals / rule conditions compare with) is the NAME of a field `k`
+/// of the same store — `A := "X"` while a fact called `X` exists. A literal is a literal: the rule has to write the
+/// string, never the value of the fact that happens to be called so. The fact `k` is an initial fact (the seed fact
+/// itself, an unrelated one, the goal's or the assigned field itself), is derived earlier on the proof path (another
+/// rule / an earlier action of the same rule), or is absent (control); it holds a number, boolean, string (also a
+/// string that is again a field name), Integer, array or object. The goal depends on the assigned string directly
+/// (== / !=), through one or two rule conditions, or not at all (then the facts handed back carry it).
+/// Returns the body and the max_depth at which DFS explores everything.
+fn gen_namelit(rng: &mut Rng) -> (String, u64) {
+    let t = rng.below(4); // receives the string
+    let k = match rng.below(8) {
+        0 => 6,          // the seed fact X
+        1 => t,          // the assigned field's own name
+        2 => 5,          // the name of the goal field of shapes 1.. (G)
+        _ => loop {
+            let k = rng.below(NFLAT);
+            if k != t && k != 5 && k != 6 {
+                break k;
+            }
+        },
+    };
+    let name = format!("s{}", FIELDS[k as usize]);
+    let other_name = format!("s{}", FIELDS[((k + 1 + rng.below(NFLAT - 1)) % NFLAT) as usize]);
+    let kv: String = if k == 6 {
+        "n1".to_string()
+    } else {
+        match rng.below(10) {
+            0..=2 => format!("n{}", rng.range(0, 9)),
+            3 => "t".to_string(),
+            4 => "f".to_string(),
+            5 => (*rng.pick(&["sab", "s", "sgold"])).to_string(),
+            6 => other_name.clone(),  // a string that is again a field name
+            7 => name.clone(),        // the fact holds its own name
+            8 => format!("i{}", rng.below(3)),
+            _ => (*rng.pick(&["a", "an1", "o1"])).to_string(),
+        }
+    };
+    let mut facts = vec!["F6=n1".to_string()];
+    let mut rules: Vec<String> = Vec::new();
+    // how the fact called `name` comes to exist
+    let how = if k == 6 { 0 } else if k == t || k == 5 { rng.below(2) * 3 } else { rng.below(4) };
+    let mut set_t = format!("F{}:={}", t, name);
+    let mut need = 1;
+    match how {
+        0 => {
+            if k != 6 {
+                facts.push(format!("F{}={}", k, kv));
+            }
+        }
+        1 => set_t = format!("F{}:={}+{}", k, kv, set_t), // an earlier action of the same rule
+        2 => {
+            // another rule on the proof path: the assigning rule needs it
+            rules.push(format!("F6.eq.n1~F{}:={}", k, kv));
+            need += 1;
+        }
+        _ => {} // absent: control
+    }
+    let cond_t = if how == 2 && !kv.starts_with('a') && !kv.starts_with('o') && !kv.starts_with('i') {
+        format!("&,F{}.eq.{},F6.eq.n1", k, kv)
+    } else {
+        if how == 2 {
+            rules.pop();
+            rules.push(format!("F6.eq.n1~F{}:={}+F4:=t", k, kv));
+            "F4.eq.t".to_string()
+        } else {
+            "F6.eq.n1".to_string()
+        }
+    };
+    let shape = rng.below(8);
+    let q = match shape {
+        // the goal compares the assigned field with the name
+        0 | 1 => {
+            rules.push(format!("{}~{}", cond_t, set_t));
+            format!("F{}.{}.{}", t, if rng.chance(4, 5) { "eq" } else { "ne" }, name)
+        }
+        // a rule condition on the name has to be established by the assigning rule (the demo's shape)
+        2 | 3 | 4 => {
+            rules.push(format!("{}~{}", cond_t, set_t));
+            let c = match rng.below(4) {
+                0 => format!("&,F{}.eq.{},F6.eq.n1", t, name),
+                1 => format!("&,F6.eq.n1,F{}.eq.{}", t, name),
+                _ => format!("F{}.eq.{}", t, name),
+            };
+            let g = if k == 5 && how == 0 { 7 } else { 5 };
+            rules.push(format!("{}~F{}:=t", c, g));
+            need += 1;
+            if rng.chance(1, 3) {
+                rules.push(format!("F{}.eq.{}~F{}:=t", t, other_name, g)); // rival condition on another name: dead end
+            }
+            format!("F{}.eq.t", g)
+        }
+        // two levels: a second field receives the name of the first one
+        5 => {
+            let u = (t + 1) % 4;
+            let tname = format!("s{}", FIELDS[t as usize]);
+            rules.push(format!("{}~{}", cond_t, set_t));
+            rules.push(format!("F{}.eq.{}~F{}:={}", t, name, u, tname));
+            rules.push(format!("F{}.eq.{}~F7:=t", u, tname));
+            need += 2;
+            "F7.eq.t".to_string()
+        }
+        // the goal does not depend on the assigned string: it is handed back with the facts
+        _ => {
+            let g = if k == 7 { 5 } else { 7 };
+            if rng.chance(1, 2) {
+                rules.push(format!("{}~{}+F{}:=t", cond_t, set_t, g));
+            } else {
+                rules.push(format!("{}~F{}:=t+{}", cond_t, g, set_t));
+            }
+            format!("F{}.eq.t", g)
+        }
+    };
+    if rng.chance(1, 4) {
+        rules.push("F6.eq.n2~F5:=t".to_string()); // dead end
+    }
+    if rng.chance(1, 2) {
+        rng.shuffle(&mut rules);
+    }
+    (format!("{} {} {}", facts.join(","), q, rules.join(";")), need)
 }
 
 
@@ -760,6 +895,24 @@ fn gen(rng: &mut Rng, n: usize, _tier: &str) -> Vec<String> {
         for strat in ["D", "B", "I"] {
             out.push(format!("{}{}s1 {}", strat, depth, body));
         }
+    }
+    // name-literal family: assigned string literals that coincide with names of facts in the store; every problem
+    // under EVERY strategy, DFS at the exploring depth (or more) and once at a random depth
+    for i in 0..n / 10 {
+        if i % 4 == 3 {
+            let body = gen_horn_with(rng, true, true);
+            for strat in ["D", "D", "B", "I"] {
+                out.push(format!("{}{}s1 {}", strat, rng.range(2, 6), body));
+            }
+            continue;
+        }
+        let (body, need) = gen_namelit(rng);
+        out.push(format!("D{}s1 {}", (need + rng.below(3)).min(6), body));
+        if rng.chance(1, 3) {
+            out.push(format!("D{}s{} {}", rng.below(7), if rng.chance(1, 2) { 1 } else { 3 }, body));
+        }
+        out.push(format!("B{}s1 {}", need, body));
+        out.push(format!("I{}s1 {}", need, body));
     }
     // failing-first-alternative family (C10 part B): every problem under EVERY strategy; DFS at the depth that explores
     // everything (or one / two more), at a random smaller depth, and with max_solutions 3
